@@ -958,9 +958,10 @@ where
                     continue;
                 }
                 TokenKind::Comma if in_params => {
-                    // Comma separates params
+                    // Comma separates params; comments written at it stay with the param in front
+                    let comma_trivia = emit_trivia_of_token(*token_index, ctx, allocator);
                     if has_param_content {
-                        params_docs.push(current_param.clone());
+                        params_docs.push(current_param.clone().append(comma_trivia));
                         current_param = allocator.nil();
                         has_param_content = false;
                     }
@@ -1262,9 +1263,10 @@ where
                     continue;
                 }
                 TokenKind::Comma if in_body => {
-                    // End of current field, push it
+                    // End of current field, push it (with the comments written at the comma)
+                    let comma_trivia = emit_trivia_of_token(*token_index, ctx, allocator);
                     if has_current_field {
-                        fields.push(current_field.clone());
+                        fields.push(current_field.clone().append(comma_trivia));
                         current_field = allocator.nil();
                         has_current_field = false;
                     }
@@ -1378,7 +1380,7 @@ where
     // macro!(args)
     // Structure: identifier, !, (, args..., )
     let mut result = allocator.nil();
-    let mut args = Vec::new();
+    let mut args: Vec<DocBuilder<'a, D, A>> = Vec::new();
     let mut in_args = false;
     let mut open_doc = allocator.nil();
     let mut close_doc = allocator.nil();
@@ -1414,7 +1416,12 @@ where
                     continue;
                 }
                 TokenKind::Comma if in_args => {
-                    // Skip comma - we'll add our own with proper spacing
+                    // Skip comma - we'll add our own with proper spacing; its comments stay with
+                    // the argument in front of it
+                    let comma_trivia = emit_trivia_of_token(*token_index, ctx, allocator);
+                    if let Some(last) = args.pop() {
+                        args.push(last.append(comma_trivia));
+                    }
                     continue;
                 }
                 _ => {}
